@@ -11,12 +11,12 @@ Ltac sm_if :=
 
 (* ------------------------------------------------------------------------------------------ *)
 (* generic: invariants along a run *)
-Lemma sm_run_inv : forall fixed (P : sm_state -> Prop) (Q : sm_op -> Prop),
-  (forall s o, P s -> Q o -> P (fst (sm_step fixed s o))) ->
-  forall ops s, P s -> Forall Q ops -> Forall (fun sr => P (fst sr)) (sm_run fixed s ops).
+Lemma sm_run_inv : forall (fx : sm_fix) (P : sm_state -> Prop) (Q : sm_op -> Prop),
+  (forall s o, P s -> Q o -> P (fst (sm_step fx s o))) ->
+  forall ops s, P s -> Forall Q ops -> Forall (fun sr => P (fst sr)) (sm_run fx s ops).
 Proof.
-  intros fixed P Q Hstep. induction ops as [|o t IH]; intros s Hs Hq; cbn; [constructor|].
-  inversion Hq as [|? ? Ho Ht]; subst. destruct (sm_step fixed s o) as [s1 r] eqn:E.
+  intros fx P Q Hstep. induction ops as [|o t IH]; intros s Hs Hq; cbn; [constructor|].
+  inversion Hq as [|? ? Ho Ht]; subst. destruct (sm_step fx s o) as [s1 r] eqn:E.
   assert (P s1) as Hs1 by (specialize (Hstep s o Hs Ho); now rewrite E in Hstep).
   constructor; [assumption|]. now apply IH.
 Qed.
@@ -26,11 +26,11 @@ Qed.
 Lemma sm_set_phase_ge : forall s p, sm_phase s <= sm_phase (sm_set_phase s p).
 Proof. intros. unfold sm_set_phase. destruct (Z.ltb_spec (sm_phase s) p); cbn; lia. Qed.
 
-Lemma sm_phase_forward : forall fixed s o,
-  sm_phase (fst (sm_step fixed s o)) < sm_phase s ->
+Lemma sm_phase_forward : forall fx s o,
+  sm_phase (fst (sm_step fx s o)) < sm_phase s ->
   (exists p, o = SmResetPhase p) \/ (o = SmRestart /\ sm_phase s < sm_Share).
 Proof.
-  intros fixed s o H. unfold sm_step in H.
+  intros fx s o H. unfold sm_step in H.
   destruct (sm_needs_lock o && sm_held s); [cbn in H; lia|].
   destruct o; try (cbn in H; lia); try (left; eauto; fail).
   - cbn in H. pose proof (sm_set_phase_ge s p). lia.
@@ -45,17 +45,17 @@ Qed.
 
 (* over a whole history: between consecutive states the phase only drops at a ResetPhase or at
    an accepted Restart (before sharing) *)
-Lemma sm_phase_forward_history : forall fixed ops s i a b o,
-  nth_error (s :: map fst (sm_run fixed s ops)) i = Some a ->
-  nth_error (map fst (sm_run fixed s ops)) i = Some b ->
+Lemma sm_phase_forward_history : forall fx ops s i a b o,
+  nth_error (s :: map fst (sm_run fx s ops)) i = Some a ->
+  nth_error (map fst (sm_run fx s ops)) i = Some b ->
   nth_error ops i = Some o ->
   sm_phase b < sm_phase a ->
   (exists p, o = SmResetPhase p) \/ (o = SmRestart /\ sm_phase a < sm_Share).
 Proof.
-  intros fixed. induction ops as [|o' t IH]; intros s i a b o Ha Hb Ho Hlt; [destruct i; discriminate|].
-  cbn [sm_run] in Ha, Hb. destruct (sm_step fixed s o') as [s1 r] eqn:E. cbn [map fst] in Ha, Hb.
+  intros fx. induction ops as [|o' t IH]; intros s i a b o Ha Hb Ho Hlt; [destruct i; discriminate|].
+  cbn [sm_run] in Ha, Hb. destruct (sm_step fx s o') as [s1 r] eqn:E. cbn [map fst] in Ha, Hb.
   destruct i as [|i]; cbn in Ha, Hb, Ho.
-  - inversion Ha; inversion Hb; inversion Ho; subst. apply (sm_phase_forward fixed). now rewrite E.
+  - inversion Ha; inversion Hb; inversion Ho; subst. apply (sm_phase_forward fx). now rewrite E.
   - eapply IH; eassumption.
 Qed.
 
@@ -74,12 +74,12 @@ Proof. intros z H. unfold sm_wrap64. rewrite Z.mod_small; lia. Qed.
 
 (* one step never lowers the count, outside the two triggers: an increment while the count is
    above a positive cap, and an increment at MaxInt64 *)
-Lemma sm_timeout_step_partial : forall fixed s o,
+Lemma sm_timeout_step_partial : forall fx s o,
   - 2^63 <= sm_tcount s < 2^63 - 1 ->
   (forall prrs perm self cap, o = SmIncTimeout prrs perm self cap -> cap <= 0 \/ sm_tcount s <= cap) ->
-  sm_tcount s <= sm_tcount (fst (sm_step fixed s o)).
+  sm_tcount s <= sm_tcount (fst (sm_step fx s o)).
 Proof.
-  intros fixed s o Hr Hcap. unfold sm_step.
+  intros fx s o Hr Hcap. unfold sm_step.
   destruct (sm_needs_lock o && sm_held s); [cbn; lia|].
   destruct o; try solve [cbn; unfold sm_set_phase; sm_if; cbn; lia].
   - specialize (Hcap _ _ _ _ eq_refl). cbn [fst]. unfold sm_inc_timeout.
@@ -89,7 +89,8 @@ Proof.
     set (c1 := sm_scan_votes perm' self (sm_votes s) (sm_tcount s)) in *.
     unfold sm_check_cap.
     destruct (Z.eqb_spec c1 (sm_tcount s)) as [E|E].
-    + rewrite E. rewrite sm_wrap64_small by lia.
+    + rewrite E. destruct (Z.eqb_spec (sm_tcount s) (2^63 - 1)); [lia|]. rewrite andb_false_r.
+      rewrite sm_wrap64_small by lia.
       destruct (Z.ltb_spec 0 cap); destruct (Z.ltb_spec cap (sm_tcount s + 1)); cbn; lia.
     + destruct (Z.ltb_spec 0 cap); destruct (Z.ltb_spec cap c1); cbn; lia.
 Qed.
@@ -97,20 +98,21 @@ Qed.
 Definition sm_op_cap_ok (K : Z) (o : sm_op) : Prop :=
   match o with
   | SmIncTimeout _ _ _ cap => cap = K
-  | SmSetTimeout c => c <= K
+  | SmSetTimeout c _ => c <= K
   | _ => True
   end.
 
-Lemma sm_timeout_capped_step : forall fixed K s o, 0 < K < 2^63 - 1 -> sm_op_cap_ok K o ->
+Lemma sm_timeout_capped_step : forall fx K s o, 0 < K < 2^63 - 1 -> sm_op_cap_ok K o ->
   0 <= sm_tcount s <= K ->
-  sm_tcount s <= sm_tcount (fst (sm_step fixed s o)) <= K.
+  sm_tcount s <= sm_tcount (fst (sm_step fx s o)) <= K.
 Proof.
-  intros fixed K s o HK Hok Hs.
-  assert (sm_tcount s <= sm_tcount (fst (sm_step fixed s o))) as Hmono.
+  intros fx K s o HK Hok Hs.
+  assert (sm_tcount s <= sm_tcount (fst (sm_step fx s o))) as Hmono.
   { apply sm_timeout_step_partial; [lia|]. intros prrs perm self cap ->. cbn in Hok. right. lia. }
   split; [assumption|]. clear Hmono. unfold sm_step.
   destruct (sm_needs_lock o && sm_held s); [cbn; lia|].
   destruct o; try solve [cbn in *; unfold sm_set_phase; sm_if; cbn; lia].
+  - cbn in Hok. cbn. unfold sm_check_cap. sm_if; cbn; lia.
   - cbn in Hok. subst cap. cbn [fst]. unfold sm_inc_timeout.
     destruct (Z.eqb prrs 0); [lia|]. cbn [sm_tcount sm_with_timeout].
     unfold sm_check_cap. sm_if; lia.
@@ -122,24 +124,24 @@ Fixpoint sm_nondecreasing (prev : Z) (l : list Z) : Prop :=
   | x :: t => prev <= x /\ sm_nondecreasing x t
   end.
 
-Definition sm_tcounts (fixed : bool) (s : sm_state) (ops : list sm_op) : list Z :=
-  map (fun sr => sm_tcount (fst sr)) (sm_run fixed s ops).
+Definition sm_tcounts (fx : sm_fix) (s : sm_state) (ops : list sm_op) : list Z :=
+  map (fun sr => sm_tcount (fst sr)) (sm_run fx s ops).
 
 (* with a constant positive cap and SetTimeoutCount arguments within it, the count of every
    reachable state is within the cap and the sequence of counts never decreases *)
-Lemma sm_timeout_monotone_capped : forall fixed K number ops, 0 < K < 2^63 - 1 ->
+Lemma sm_timeout_monotone_capped : forall fx K number ops, 0 < K < 2^63 - 1 ->
   Forall (sm_op_cap_ok K) ops ->
-  sm_nondecreasing 0 (sm_tcounts fixed (sm_init number) ops) /\
-  Forall (fun c => 0 <= c <= K) (sm_tcounts fixed (sm_init number) ops).
+  sm_nondecreasing 0 (sm_tcounts fx (sm_init number) ops) /\
+  Forall (fun c => 0 <= c <= K) (sm_tcounts fx (sm_init number) ops).
 Proof.
-  intros fixed K number ops HK Hok.
+  intros fx K number ops HK Hok.
   assert (forall ops s, 0 <= sm_tcount s <= K -> Forall (sm_op_cap_ok K) ops ->
-            sm_nondecreasing (sm_tcount s) (sm_tcounts fixed s ops) /\
-            Forall (fun c => 0 <= c <= K) (sm_tcounts fixed s ops)) as G.
+            sm_nondecreasing (sm_tcount s) (sm_tcounts fx s ops) /\
+            Forall (fun c => 0 <= c <= K) (sm_tcounts fx s ops)) as G.
   { clear ops Hok. induction ops as [|o t IH]; intros s Hs Hq; cbn; [split; [exact I|constructor]|].
     inversion Hq; subst. unfold sm_tcounts. cbn [sm_run].
-    destruct (sm_step fixed s o) as [s1 r] eqn:E. cbn [map fst].
-    pose proof (sm_timeout_capped_step fixed K s o HK H1 Hs) as H. rewrite E in H. cbn [fst] in H.
+    destruct (sm_step fx s o) as [s1 r] eqn:E. cbn [map fst].
+    pose proof (sm_timeout_capped_step fx K s o HK H1 Hs) as H. rewrite E in H. cbn [fst] in H.
     destruct (IH s1 ltac:(lia) H2) as [I1 I2]. split.
     - split; [lia|exact I1].
     - constructor; [lia|exact I2]. }
@@ -147,13 +149,90 @@ Proof.
 Qed.
 
 (* the unconditional statement: counts never decrease along any history *)
-Definition sm_timeout_never_decreases : Prop :=
-  forall fixed number ops, sm_nondecreasing 0 (sm_tcounts fixed (sm_init number) ops).
+Definition sm_timeout_never_decreases (fx : sm_fix) : Prop :=
+  forall number ops, sm_nondecreasing 0 (sm_tcounts fx (sm_init number) ops).
 
-Lemma sm_timeout_never_decreases_refuted : ~ sm_timeout_never_decreases.
+Lemma sm_timeout_never_decreases_refuted : ~ sm_timeout_never_decreases sm_as_written.
 Proof.
-  intros H. specialize (H false 5 [SmSetTimeout 3; SmIncTimeout 9 [] 0 1]).
+  intros H. specialize (H 5 [SmSetTimeout 3 1; SmIncTimeout 9 [] 0 1]).
   vm_compute in H. destruct H as (_ & H & _). apply H. reflexivity.
+Qed.
+
+(* with both timeout repairs (SetTimeoutCount clamps to the cap, the increment saturates) and a
+   constant cap (0 = none) the counts of every history never decrease *)
+Definition sm_int64 (z : Z) : Prop := - 2^63 <= z < 2^63.
+
+Definition sm_op_cap_const (K : Z) (o : sm_op) : Prop :=
+  match o with
+  | SmIncTimeout _ _ _ cap => cap = K
+  | SmSetTimeout c cap => cap = K /\ sm_int64 c
+  | SmVote num _ => sm_int64 num
+  | _ => True
+  end.
+
+Definition sm_tinv (K : Z) (s : sm_state) : Prop :=
+  sm_int64 (sm_tcount s) /\ (0 < K -> sm_tcount s <= K) /\ Forall (fun kv => sm_int64 (snd kv)) (sm_votes s).
+
+Lemma sm_vote_lookup_range : forall id votes v, Forall (fun kv => sm_int64 (snd kv)) votes ->
+  sm_vote_lookup id votes = Some v -> sm_int64 v.
+Proof.
+  induction votes as [|[k w] t IH]; intros v Hf H; cbn in H; [discriminate|].
+  inversion Hf; subst. destruct (Z.eqb k id); [inversion H; subst; assumption|auto].
+Qed.
+
+Lemma sm_scan_votes_range : forall perm self votes c, sm_int64 c ->
+  Forall (fun kv => sm_int64 (snd kv)) votes -> sm_int64 (sm_scan_votes perm self votes c).
+Proof.
+  induction perm as [|id t IH]; intros self votes c Hc Hv; cbn; [assumption|].
+  destruct (Z.eqb id self); [auto|].
+  destruct (sm_vote_lookup id votes) eqn:E; [|auto].
+  destruct (Z.ltb c z); [eapply sm_vote_lookup_range; eassumption|auto].
+Qed.
+
+Lemma sm_timeout_repaired_step : forall fx K s o, fx_clamp fx = true -> fx_saturate fx = true ->
+  0 <= K < 2^63 -> sm_op_cap_const K o -> sm_tinv K s ->
+  sm_tinv K (fst (sm_step fx s o)) /\ sm_tcount s <= sm_tcount (fst (sm_step fx s o)).
+Proof.
+  intros fx K s o Hc Hsat HK Hok (Hi & Hk & Hv). unfold sm_step.
+  destruct (sm_needs_lock o && sm_held s);
+    [cbn; unfold sm_tinv, sm_int64 in *; repeat split; auto; lia|].
+  destruct o;
+    try solve [cbn; unfold sm_set_phase; sm_if; cbn; unfold sm_tinv, sm_int64 in *; cbn; repeat split; auto; lia].
+  - (* SetTimeoutCount *)
+    cbn in Hok. destruct Hok as [-> Hc0]. cbn. rewrite Hc. unfold sm_check_cap, sm_int64 in *.
+    sm_if; cbn; unfold sm_tinv, sm_int64; cbn; repeat split; auto; try lia.
+  - (* IncrementTimeoutCount *)
+    cbn in Hok. subst cap. cbn [fst]. unfold sm_inc_timeout.
+    destruct (Z.eqb prrs 0); [unfold sm_tinv, sm_int64 in *; repeat split; auto; lia|].
+    cbn [sm_tcount sm_with_timeout]. rewrite Hsat. cbn [andb].
+    set (perm' := match sm_tperm s with [] => perm | _ => _ end).
+    pose proof (sm_scan_votes_ge perm' self (sm_votes s) (sm_tcount s)) as Hge.
+    pose proof (sm_scan_votes_range perm' self (sm_votes s) (sm_tcount s) Hi Hv) as Hrg.
+    set (c1 := sm_scan_votes perm' self (sm_votes s) (sm_tcount s)) in *.
+    unfold sm_tinv, sm_check_cap, sm_int64 in *. cbn [sm_tcount sm_votes sm_with_timeout].
+    destruct (Z.eqb_spec c1 (sm_tcount s)) as [E|E].
+    + destruct (Z.eqb_spec c1 (2^63 - 1)) as [E2|E2].
+      * destruct (Z.ltb_spec 0 K); destruct (Z.ltb_spec K c1); cbn; repeat split; try constructor; lia.
+      * rewrite sm_wrap64_small by lia.
+        destruct (Z.ltb_spec 0 K); destruct (Z.ltb_spec K (c1 + 1)); cbn; repeat split; try constructor; lia.
+    + destruct (Z.ltb_spec 0 K); destruct (Z.ltb_spec K c1); cbn; repeat split; try constructor; lia.
+Qed.
+
+Lemma sm_timeout_monotone_repaired : forall fx K number ops,
+  fx_clamp fx = true -> fx_saturate fx = true -> 0 <= K < 2^63 ->
+  Forall (sm_op_cap_const K) ops ->
+  sm_nondecreasing 0 (sm_tcounts fx (sm_init number) ops).
+Proof.
+  intros fx K number ops Hc Hsat HK Hok.
+  assert (forall ops s, sm_tinv K s -> Forall (sm_op_cap_const K) ops ->
+            sm_nondecreasing (sm_tcount s) (sm_tcounts fx s ops)) as G.
+  { clear ops Hok. induction ops as [|o t IH]; intros s Hs Hq; cbn; [exact I|].
+    inversion Hq as [|? ? Ho Ht]; subst. unfold sm_tcounts. cbn [sm_run].
+    destruct (sm_step fx s o) as [s1 r] eqn:E. cbn [map fst].
+    destruct (sm_timeout_repaired_step fx K s o Hc Hsat HK Ho Hs) as [H1 H2].
+    rewrite E in H1, H2. cbn [fst] in H1, H2. split; [assumption|]. now apply IH. }
+  apply (G ops (sm_init number)); [|assumption].
+  unfold sm_tinv, sm_int64. cbn. repeat split; try constructor; lia.
 Qed.
 
 (* ------------------------------------------------------------------------------------------ *)
@@ -171,10 +250,10 @@ Proof.
   - intros H. exists x. split; [assumption|apply Z.eqb_refl].
 Qed.
 
-Lemma sm_shares_step : forall fixed T s o, sm_op_thr_ok T o -> sm_shares_inv T s ->
-  sm_shares_inv T (fst (sm_step fixed s o)).
+Lemma sm_shares_step : forall fx T s o, sm_op_thr_ok T o -> sm_shares_inv T s ->
+  sm_shares_inv T (fst (sm_step fx s o)).
 Proof.
-  intros fixed T s o Hok [Hn Hl]. unfold sm_step.
+  intros fx T s o Hok [Hn Hl]. unfold sm_step.
   destruct (sm_needs_lock o && sm_held s); [split; assumption|].
   destruct o; try (split; assumption); try (sm_if; split; assumption).
   - unfold sm_set_phase. sm_if; split; assumption.
@@ -195,24 +274,24 @@ Proof.
 Qed.
 
 (* at most threshold-many shares, at most one per miner, in every reachable state *)
-Lemma sm_shares_bounded : forall fixed T number ops, Forall (sm_op_thr_ok T) ops ->
+Lemma sm_shares_bounded : forall fx T number ops, Forall (sm_op_thr_ok T) ops ->
   Forall (fun sr => NoDup (sm_shares (fst sr)) /\ Z.of_nat (length (sm_shares (fst sr))) <= Z.max T 0)
-         (sm_run fixed (sm_init number) ops).
+         (sm_run fx (sm_init number) ops).
 Proof.
-  intros fixed T number ops Hok.
-  apply (sm_run_inv fixed (sm_shares_inv T) (sm_op_thr_ok T)).
+  intros fx T number ops Hok.
+  apply (sm_run_inv fx (sm_shares_inv T) (sm_op_thr_ok T)).
   - intros s o Hs Ho. now apply sm_shares_step.
   - split; [constructor|cbn; lia].
   - assumption.
 Qed.
 
 (* an accepted AddVRFShare leaves at most [threshold] shares *)
-Lemma sm_add_share_within_threshold : forall fixed s party threshold,
-  snd (sm_step fixed s (SmAddShare party threshold)) = Ret (VBool true) ->
-  Z.of_nat (length (sm_shares (fst (sm_step fixed s (SmAddShare party threshold))))) <= threshold /\
-  ~ In party (sm_shares s) /\ In party (sm_shares (fst (sm_step fixed s (SmAddShare party threshold)))).
+Lemma sm_add_share_within_threshold : forall fx s party threshold,
+  snd (sm_step fx s (SmAddShare party threshold)) = Ret (VBool true) ->
+  Z.of_nat (length (sm_shares (fst (sm_step fx s (SmAddShare party threshold))))) <= threshold /\
+  ~ In party (sm_shares s) /\ In party (sm_shares (fst (sm_step fx s (SmAddShare party threshold)))).
 Proof.
-  intros fixed s party threshold. unfold sm_step. cbn [sm_needs_lock andb].
+  intros fx s party threshold. unfold sm_step. cbn [sm_needs_lock andb].
   destruct (sm_held s); [discriminate|].
   destruct (Z.leb_spec threshold (Z.of_nat (length (sm_shares s)))); [discriminate|].
   destruct (existsb (Z.eqb party) (sm_shares s)) eqn:Ex; [discriminate|].
@@ -223,12 +302,12 @@ Qed.
 
 (* ------------------------------------------------------------------------------------------ *)
 (* 4. every operation returns *)
-Definition sm_all_return (fixed : bool) (number : Z) (ops : list sm_op) : Prop :=
-  Forall (fun sr => snd sr <> Blocked) (sm_run fixed (sm_init number) ops).
+Definition sm_all_return (fx : sm_fix) (number : Z) (ops : list sm_op) : Prop :=
+  Forall (fun sr => snd sr <> Blocked) (sm_run fx (sm_init number) ops).
 
-Definition sm_every_op_returns (fixed : bool) : Prop := forall number ops, sm_all_return fixed number ops.
+Definition sm_every_op_returns (fx : sm_fix) : Prop := forall number ops, sm_all_return fx number ops.
 
-Lemma sm_every_op_returns_refuted : ~ sm_every_op_returns false.
+Lemma sm_every_op_returns_refuted : ~ sm_every_op_returns sm_as_written.
 Proof.
   intros H. specialize (H 5 [SmAddNotarized; SmRestart; SmGetShares]).
   unfold sm_all_return in H. vm_compute in H.
@@ -236,58 +315,58 @@ Proof.
   inversion H2 as [|? ? H3 _]; subst. now apply H3.
 Qed.
 
-Lemma sm_step_unheld : forall fixed s o, sm_held s = false ->
-  snd (sm_step fixed s o) <> Blocked /\
-  (sm_held (fst (sm_step fixed s o)) = true -> fixed = false /\ snd (sm_step fixed s o) = Ret VRestartRejected).
+Lemma sm_step_unheld : forall fx s o, sm_held s = false ->
+  snd (sm_step fx s o) <> Blocked /\
+  (sm_held (fst (sm_step fx s o)) = true -> fx_restart fx = false /\ snd (sm_step fx s o) = Ret VRestartRejected).
 Proof.
-  intros fixed s o Hh. unfold sm_step. rewrite Hh. rewrite andb_false_r.
+  intros fx s o Hh. unfold sm_step. rewrite Hh. rewrite andb_false_r.
   destruct o; try solve [cbn; sm_unf; sm_if; cbn; (split; [discriminate|congruence])].
   destruct (Z.leb sm_Share (sm_phase s)); cbn.
-  - split; [discriminate|]. destruct fixed; cbn; intros; [discriminate|auto].
+  - split; [discriminate|]. destruct (fx_restart fx); cbn; intros; [discriminate|auto].
   - split; [discriminate|congruence].
 Qed.
 
 (* as written: every operation returns as long as no Restart was rejected *)
-Lemma sm_all_return_partial : forall number ops,
-  Forall (fun sr => snd sr <> Ret VRestartRejected) (sm_run false (sm_init number) ops) ->
-  sm_all_return false number ops.
+Lemma sm_all_return_partial : forall fx number ops,
+  Forall (fun sr => snd sr <> Ret VRestartRejected) (sm_run fx (sm_init number) ops) ->
+  sm_all_return fx number ops.
 Proof.
-  intros number ops. unfold sm_all_return.
+  intros fx number ops. unfold sm_all_return.
   assert (forall ops s, sm_held s = false ->
-            Forall (fun sr => snd sr <> Ret VRestartRejected) (sm_run false s ops) ->
-            Forall (fun sr => snd sr <> Blocked) (sm_run false s ops)) as G.
+            Forall (fun sr => snd sr <> Ret VRestartRejected) (sm_run fx s ops) ->
+            Forall (fun sr => snd sr <> Blocked) (sm_run fx s ops)) as G.
   { clear ops. induction ops as [|o t IH]; intros s Hh Hn; cbn in *; [constructor|].
-    destruct (sm_step false s o) as [s1 r] eqn:E. inversion Hn as [|? ? Hnr Hnt]; subst.
-    destruct (sm_step_unheld false s o Hh) as [G1 G2]. rewrite E in G1, G2. cbn in G1, G2, Hnr.
+    destruct (sm_step fx s o) as [s1 r] eqn:E. inversion Hn as [|? ? Hnr Hnt]; subst.
+    destruct (sm_step_unheld fx s o Hh) as [G1 G2]. rewrite E in G1, G2. cbn in G1, G2, Hnr.
     constructor; [assumption|]. apply IH; [|assumption].
     destruct (sm_held s1); [|reflexivity]. destruct (G2 eq_refl) as [_ Hr]. contradiction. }
   apply G. reflexivity.
 Qed.
 
 (* with the Unlock added on the rejected path every operation returns, always *)
-Lemma sm_every_op_returns_repaired : sm_every_op_returns true.
+Lemma sm_every_op_returns_repaired : forall fx, fx_restart fx = true -> sm_every_op_returns fx.
 Proof.
-  intros number ops. unfold sm_all_return.
-  assert (forall ops s, sm_held s = false -> Forall (fun sr => snd sr <> Blocked) (sm_run true s ops)) as G.
+  intros fx Hfx number ops. unfold sm_all_return.
+  assert (forall ops s, sm_held s = false -> Forall (fun sr => snd sr <> Blocked) (sm_run fx s ops)) as G.
   { clear ops. induction ops as [|o t IH]; intros s Hh; cbn; [constructor|].
-    destruct (sm_step true s o) as [s1 r] eqn:E.
-    destruct (sm_step_unheld true s o Hh) as [G1 G2]. rewrite E in G1, G2. cbn in G1, G2.
+    destruct (sm_step fx s o) as [s1 r] eqn:E.
+    destruct (sm_step_unheld fx s o Hh) as [G1 G2]. rewrite E in G1, G2. cbn in G1, G2.
     constructor; [assumption|]. apply IH.
-    destruct (sm_held s1); [|reflexivity]. destruct (G2 eq_refl). discriminate. }
+    destruct (sm_held s1); [|reflexivity]. destruct (G2 eq_refl). congruence. }
   apply G. reflexivity.
 Qed.
 
 (* a rejected Restart itself returns (it is the later lock-taking operations that do not) *)
-Lemma sm_rejected_restart_returns : forall fixed s, sm_held s = false ->
-  snd (sm_step fixed s SmRestart) <> Blocked.
+Lemma sm_rejected_restart_returns : forall fx s, sm_held s = false ->
+  snd (sm_step fx s SmRestart) <> Blocked.
 Proof. intros. now apply sm_step_unheld. Qed.
 
 (* ------------------------------------------------------------------------------------------ *)
 (* 5. a finalized round stays finalized, except by the unconditional ResetFinalizingState *)
-Lemma sm_finalized_stays : forall fixed s o, sm_finalized s = true -> o <> SmResetFin ->
-  sm_finalized (fst (sm_step fixed s o)) = true.
+Lemma sm_finalized_stays : forall fx s o, sm_finalized s = true -> o <> SmResetFin ->
+  sm_finalized (fst (sm_step fx s o)) = true.
 Proof.
-  intros fixed s o Hf Hne. unfold sm_step.
+  intros fx s o Hf Hne. unfold sm_step.
   destruct (sm_needs_lock o && sm_held s); [assumption|].
   destruct o; try contradiction;
     try solve [cbn; unfold sm_set_phase, sm_inc_timeout; sm_if; cbn; try assumption;
@@ -295,10 +374,10 @@ Proof.
   rewrite Hf. cbn. assumption.
 Qed.
 
-Lemma sm_conditional_reset_keeps_finalized : forall fixed s, sm_finalized s = true ->
-  fst (sm_step fixed s SmResetFinIfNot) = s.
+Lemma sm_conditional_reset_keeps_finalized : forall fx s, sm_finalized s = true ->
+  fst (sm_step fx s SmResetFinIfNot) = s.
 Proof.
-  intros fixed s Hf. unfold sm_step. cbn [sm_needs_lock andb].
+  intros fx s Hf. unfold sm_step. cbn [sm_needs_lock andb].
   destruct (sm_held s); [reflexivity|]. now rewrite Hf.
 Qed.
 
